@@ -79,7 +79,7 @@ def graph_specs(ctx) -> list[dict]:
     specs += [{"family": "tagged_ladder", "depth": d} for d in depths]
     specs += [{"family": "every_edge", "dedup": True}, {"family": "every_edge", "dedup": True, "loopy": True},
               {"family": "all_kinds", "dedup": True}]
-    nr = 90 if ctx.thorough else 24
+    nr = 240 if ctx.thorough else 24
     base = ctx.seed * 10000
     specs += [{"family": "random_plain", "seed": base + i, "size": 30} for i in range(nr)]
     specs += [{"family": "random_plain", "seed": base + 300 + i, "size": 20, "n_outputs": 0} for i in range(nr // 3)]
@@ -128,7 +128,15 @@ class Raised:
         self.e = e
 
 
+_current_depth = [0]
+
+
 def guarded(fn, *a, **kw):
+    if TIMED_OUT and _current_depth[0] > 12:
+        # something already ran out of time on a deep ladder: do not spend 10 s per call again
+        nm = getattr(fn, "__name__", "")
+        if any(nm and nm in f for f in TIMED_OUT) or (not nm):
+            return Raised(TimeoutError("skipped after an earlier timeout"))
     try:
         with c13.time_limit(LIMIT):
             return fn(*a, **kw)
@@ -191,6 +199,10 @@ def check_users_tables(ctx, t: ch.Tables, lean_ok: bool):
 # 2. analyses on graphs
 # --------------------------------------------------------------------------
 
+def entering(case) -> None:
+    _current_depth[0] = case.spec.get("depth", 0)
+
+
 class GraphCase:
     def __init__(self, spec):
         self.spec = spec
@@ -207,9 +219,19 @@ class GraphCase:
         return self.v.index.get(id(obj))
 
 
+TIMED_OUT: set[str] = set()
+
+
 def report_raise(ctx, t, fn_name: str, case: GraphCase, err, kinds_present=None) -> str:
-    kind = attribute_raise(t, fn_name, err, kinds_present or case.kinds_present)
     nm = fn_name[3:] if fn_name.startswith("fn:") else fn_name
+    if isinstance(err, TimeoutError):
+        TIMED_OUT.add(fn_name)
+        sig = f"mapper-retraverses:{nm}"
+        ctx.violation(sig, f"{nm} did not finish a graph of {len(case.v.nodes)} nodes ({case.spec}) within "
+                           f"{LIMIT:.0f} s — shared nodes are traversed again on every path",
+                      {"check": "analysis-raises", "function": fn_name, "graph": case.spec, "error": "timeout"})
+        return sig
+    kind = attribute_raise(t, fn_name, err, kinds_present or case.kinds_present)
     sig = f"analysis-raises:{nm}:{kind}"
     ctx.violation(sig, f"{nm} raises {type(err).__name__} ({str(err)[:120]}) on a valid graph containing a {kind} "
                        f"node ({case.spec})",
@@ -234,6 +256,7 @@ def check_users(ctx, t: ch.Tables, cases: list[GraphCase], table_sigs: set[str])
         if case.dups:
             continue          # the result dictionaries are keyed by equality
         v = case.v
+        entering(case)
         lu = guarded(pa.get_list_of_users, case.graph)
         uc = guarded(ptf.get_users, case.graph)
         dp_ok = {}
@@ -376,8 +399,10 @@ def check_topo(ctx, t: ch.Tables, cases: list[GraphCase]):
     walk = walk_exclusions(t, "TopoSortMapper")
     for case in cases:
         v = case.v
+        entering(case)
         m = ptf.TopoSortMapper()
-        r = guarded(m, case.graph)
+        r = guarded(m, case.graph) if "TopoSortMapper" not in TIMED_OUT or case.spec.get("depth", 0) <= 12 \
+            else Raised(TimeoutError("skipped after an earlier timeout"))
         n += 1
         if isinstance(r, Raised):
             dis += 1
@@ -452,6 +477,7 @@ def check_counts(ctx, t: ch.Tables, cases: list[GraphCase]):
     walk = walk_exclusions(t, "NodeCountMapper", extra=[("FunctionDefinition", "ret")])
     for case in cases:
         v = case.v
+        entering(case)
         n += 1
         res = {}
         for dup in (True, False):
@@ -530,6 +556,7 @@ def check_tagcounts(ctx, t: ch.Tables, cases: list[GraphCase]):
         if case.dups:
             continue       # cache keyed by equality, collisions reported (C13)
         v = case.v
+        entering(case)
         for want, names in wants:
             n += 1
             r = guarded(pa.get_num_tags_of_type, case.graph, want[0] if len(want) == 1 else want)
@@ -570,6 +597,7 @@ def check_materialized(ctx, t: ch.Tables, cases: list[GraphCase]):
         if case.dups:
             continue       # the result is a set keyed by equality
         v = case.v
+        entering(case)
         for inc in (True, False):
             n += 1
             r = guarded(pa.collect_materialized_nodes, case.graph, include_outputs=inc)
@@ -595,12 +623,23 @@ def check_materialized(ctx, t: ch.Tables, cases: list[GraphCase]):
                 dis += 1
                 extra = sorted(set(real) - orc)
                 miss = sorted(orc - set(real))
-                ctx.violation("materialized:MaterializedNodeCollector",
+                if miss:
+                    j = miss[0]
+                    via = [(v.kind(i), ec) for i in range(len(v.nodes)) for _, ec, jj in v.edges[i]
+                           if jj == j and (v.kind(i), ec) in MAT_EDGES]
+                    why = f"{via[0][0]}:{via[0][1]}" if via else v.kind(j)
+                    sig = f"materialized-misses:{why}"
+                else:
+                    sig = f"materialized-extra:{v.kind(extra[0]) if extra[0] >= 0 else 'foreign'}"
+                ctx.violation(sig,
                               f"collect_materialized_nodes(include_outputs={inc}) on {case.spec}: "
                               f"not reported {[f'{j}:{v.kind(j)}' for j in miss[:5]]}, reported beyond the rule "
                               f"{[f'{j}:{v.kind(j) if j >= 0 else 'foreign'}' for j in extra[:5]]}",
                               {"check": "materialized", "graph": case.spec, "include_outputs": inc,
-                               "observed": real, "expected": sorted(orc)})
+                               "observed": real, "expected": sorted(orc),
+                               "missing": [c13.describe(v.nodes[j], 1) for j in miss[:5]],
+                               "parents_of_first_missing": [c13.describe(v.nodes[i], 1) for i in range(len(v.nodes))
+                                                            if miss and any(jj == miss[0] for _, _, jj in v.edges[i])][:3]})
                 continue
             pend.append((case, inc, real, len(queries)))
             queries.append(f"(mapper materialized {case.hx} {v.root} {heapser.excl(walk)} {heapser.atoms(MAT_KINDS)} "
@@ -620,6 +659,7 @@ def check_misc(ctx, t: ch.Tables, cases: list[GraphCase]):
     n = dis = 0
     for case in cases:
         v = case.v
+        entering(case)
         n += 1
         r = guarded(pa.get_num_call_sites, case.graph)
         if isinstance(r, Raised):
@@ -674,7 +714,7 @@ def run(ctx: common.Ctx):
         "lean/PtGen/ChildrenWitness.lean": common.sha256_file(ch.OUT_WITNESS)}
     ctx.coverage["table_sizes"] = {"users_rows": len(t.users), "users_refusals": len(t.users_unsupported),
                                    "probe_kinds": len(t.kinds)}
-    ctx.lean_obligations("PtProofs.C20", THEOREMS, extra_targets=["PtGen"])
+    ctx.lean_obligations("PtProofs.C20", THEOREMS, extra_targets=["PtGen.Children", "PtGen.ChildrenWitness"])
     lean_ok = ctx.lean_obligations("PtProofs.C20Tables", TABLE_THEOREMS)
     table_sigs = check_users_tables(ctx, t, lean_ok)
     cases = []
